@@ -19,7 +19,8 @@ import (
 // write in flight — whole — at every crash point of every schedule; once the write is acknowledged,
 // only that.
 //
-// params: "op=S" (overwrite) | "op=D" (delete) | "op=T" (RC transaction: set, commit)
+// params: "op=S" (overwrite) | "op=D" (delete) | "op=T" (RC transaction: set, commit) | "op=C" (Create, two
+// Write calls, Close: the asynchronous pipeline)
 func init() {
 	conc.Register("crash-conc", func(p string) *conc.Scenario {
 		op := "S"
@@ -62,6 +63,19 @@ func init() {
 						}
 						if err == nil {
 							err = tx.Commit(ctx)
+						}
+						werr = err
+					case "C":
+						f, err := in.DB.Create(ctx, "a")
+						if err == nil {
+							c := dbh.Content(2, 8)
+							_, err = f.Write(c[:3])
+							if err == nil {
+								_, err = f.Write(c[3:])
+							}
+							if cerr := f.Close(); err == nil {
+								err = cerr
+							}
 						}
 						werr = err
 					default:
